@@ -68,10 +68,15 @@ func genC15(r *Rng, e *Emitter, n int) {
 				u[k] /= nrm
 			}
 			nv[0], nv[1] = -u[1], u[0]
+			unit := []float64{1e3, 1e4}[r.Intn(2)] // given to the millimetre or to the tenth of it
+			wobble := r.chance(1, 3)
 			pos := func(p geom.Coord, t float64) {
-				lat := float64(r.Intn(19)-9) * 1e-4
+				lat := 0.0 // straight but for the rounding of the ordinates ...
+				if wobble { // ... or with deviations of a few tenths of a thousandth
+					lat = float64(r.Intn(7)-3) * 1e-4
+				}
 				for k := 0; k < dim; k++ {
-					p[k] = math.Round((base[k]+t*u[k]+lat*nv[k])*1e4) / 1e4
+					p[k] = math.Round((base[k]+t*u[k]+lat*nv[k])*unit) / unit
 				}
 			}
 			t0 := float64(r.Intn(3)) * 0.5
